@@ -106,3 +106,19 @@ Theorem C19_repo_initial_version_formats :
   INITIAL_VERSION_FMT = lit "%Y.1001-alpha" /\ INITIAL_VERSION_PEP440_FMT = lit "%Y.1001a0".
 Proof. exact repo_initial_version_formats. Qed.
 Print Assumptions C19_repo_initial_version_formats.
+
+(* ---- Proofs.SelfPatternFacts ---- *)
+From Coq Require Import List Bool NArith ZArith Arith.
+From BV Require Import Lib.PyStr Lib.StrLit Model.V2 Model.Config Proofs.SelfPatternFacts.
+Import ListNotations.
+Theorem C19_self_pattern_go_found : forall (hdr h : list N) (mid : list (list N)) (cvline : list N) (post : list (list N)) (cv vp : list N) (b : bool), header_of hdr = Some h -> mem_str h cfg_section_names = true -> (forall l : list N, In l mid -> header_of l = None /\ is_section_line l = false /\ prefixb s_current_version (strip_ws l) = false) -> prefixb s_current_version (strip_ws cvline) = true -> self_pattern_go (hdr :: mid ++ cvline :: post) b cv vp = Some (sreplace (strip_q cv) (strip_q vp) (strip_ws cvline)).
+Proof. exact self_pattern_go_found. Qed.
+Print Assumptions C19_self_pattern_go_found.
+
+Theorem C19_header_of_general : forall ind name sp cmt : list N, forallb (fun c : N => mem_chr c ws_chars) ind = true -> name <> [] -> forallb name_char name = true -> forallb (fun c : N => mem_chr c ws_chars) sp = true -> comment_tail cmt = true -> header_of (ind ++ 91%N :: name ++ 93%N :: sp ++ cmt) = Some (91%N :: name ++ [93%N]).
+Proof. exact header_of_general. Qed.
+Print Assumptions C19_header_of_general.
+
+Theorem C19_self_pattern_toml_by_hand : self_pattern (lit (String.String (Ascii.Ascii true false false false true true false false) (String.String (Ascii.Ascii false true true true false true false false) (String.String (Ascii.Ascii false true false false true true false false) (String.String (Ascii.Ascii false true true true false true false false) (String.String (Ascii.Ascii true true false false true true false false) String.EmptyString)))))) (lit (String.String (Ascii.Ascii true false true true false false true false) (String.String (Ascii.Ascii true false false false false false true false) (String.String (Ascii.Ascii false true false true false false true false) (String.String (Ascii.Ascii true true true true false false true false) (String.String (Ascii.Ascii false true false false true false true false) (String.String (Ascii.Ascii false true true true false true false false) (String.String (Ascii.Ascii true false true true false false true false) (String.String (Ascii.Ascii true false false true false false true false) (String.String (Ascii.Ascii false true true true false false true false) (String.String (Ascii.Ascii true true true true false false true false) (String.String (Ascii.Ascii false true false false true false true false) (String.String (Ascii.Ascii false true true true false true false false) (String.String (Ascii.Ascii false false false false true false true false) (String.String (Ascii.Ascii true false false false false false true false) (String.String (Ascii.Ascii false false true false true false true false) (String.String (Ascii.Ascii true true false false false false true false) (String.String (Ascii.Ascii false false false true false false true false) String.EmptyString)))))))))))))))))) (lit (String.String (Ascii.Ascii true true false true true false true false) (String.String (Ascii.Ascii false false true false true true true false) (String.String (Ascii.Ascii true true true true false true true false) (String.String (Ascii.Ascii true true true true false true true false) (String.String (Ascii.Ascii false false true true false true true false) (String.String (Ascii.Ascii false true true true false true false false) (String.String (Ascii.Ascii false true false false false true true false) (String.String (Ascii.Ascii true false true false true true true false) (String.String (Ascii.Ascii true false true true false true true false) (String.String (Ascii.Ascii false false false false true true true false) (String.String (Ascii.Ascii false true true false true true true false) (String.String (Ascii.Ascii true false true false false true true false) (String.String (Ascii.Ascii false true false false true true true false) (String.String (Ascii.Ascii true false true true true false true false) (String.String (Ascii.Ascii false false false false false true false false) (String.String (Ascii.Ascii true true false false false true false false) (String.String (Ascii.Ascii false false false false false true false false) (String.String (Ascii.Ascii false true false false false true true false) (String.String (Ascii.Ascii true false false true true true true false) (String.String (Ascii.Ascii false false false false false true false false) (String.String (Ascii.Ascii false false false true false true true false) (String.String (Ascii.Ascii true false false false false true true false) (String.String (Ascii.Ascii false true true true false true true false) (String.String (Ascii.Ascii false false true false false true true false) String.EmptyString)))))))))))))))))))))))) ++ [10%N] ++ lit (String.String (Ascii.Ascii false false false false false true false false) (String.String (Ascii.Ascii false false false false false true false false) (String.String (Ascii.Ascii false false false false false true false false) (String.String (Ascii.Ascii false false false false false true false false) (String.String (Ascii.Ascii true true false false false true true false) (String.String (Ascii.Ascii true false true false true true true false) (String.String (Ascii.Ascii false true false false true true true false) (String.String (Ascii.Ascii false true false false true true true false) (String.String (Ascii.Ascii true false true false false true true false) (String.String (Ascii.Ascii false true true true false true true false) (String.String (Ascii.Ascii false false true false true true true false) (String.String (Ascii.Ascii true true true true true false true false) (String.String (Ascii.Ascii false true true false true true true false) (String.String (Ascii.Ascii true false true false false true true false) (String.String (Ascii.Ascii false true false false true true true false) (String.String (Ascii.Ascii true true false false true true true false) (String.String (Ascii.Ascii true false false true false true true false) (String.String (Ascii.Ascii true true true true false true true false) (String.String (Ascii.Ascii false true true true false true true false) (String.String (Ascii.Ascii false false false false false true false false) (String.String (Ascii.Ascii true false true true true true false false) (String.String (Ascii.Ascii false false false false false true false false) (String.String (Ascii.Ascii false true false false false true false false) (String.String (Ascii.Ascii true false false false true true false false) (String.String (Ascii.Ascii false true true true false true false false) (String.String (Ascii.Ascii false true false false true true false false) (String.String (Ascii.Ascii false true true true false true false false) (String.String (Ascii.Ascii true true false false true true false false) (String.String (Ascii.Ascii false true false false false true false false) String.EmptyString))))))))))))))))))))))))))))) ++ [10%N] ++ lit (String.String (Ascii.Ascii false false false false false true false false) (String.String (Ascii.Ascii false false false false false true false false) (String.String (Ascii.Ascii false false false false false true false false) (String.String (Ascii.Ascii false false false false false true false false) (String.String (Ascii.Ascii false true true false true true true false) (String.String (Ascii.Ascii true false true false false true true false) (String.String (Ascii.Ascii false true false false true true true false) (String.String (Ascii.Ascii true true false false true true true false) (String.String (Ascii.Ascii true false false true false true true false) (String.String (Ascii.Ascii true true true true false true true false) (String.String (Ascii.Ascii false true true true false true true false) (String.String (Ascii.Ascii true true true true true false true false) (String.String (Ascii.Ascii false false false false true true true false) (String.String (Ascii.Ascii true false false false false true true false) (String.String (Ascii.Ascii false false true false true true true false) (String.String (Ascii.Ascii false false true false true true true false) (String.String (Ascii.Ascii true false true false false true true false) (String.String (Ascii.Ascii false true false false true true true false) (String.String (Ascii.Ascii false true true true false true true false) (String.String (Ascii.Ascii false false false false false true false false) (String.String (Ascii.Ascii true false true true true true false false) (String.String (Ascii.Ascii false false false false false true false false) (String.String (Ascii.Ascii false true false false false true false false) (String.String (Ascii.Ascii true false true true false false true false) (String.String (Ascii.Ascii true false false false false false true false) (String.String (Ascii.Ascii false true false true false false true false) (String.String (Ascii.Ascii true true true true false false true false) (String.String (Ascii.Ascii false true false false true false true false) (String.String (Ascii.Ascii false true true true false true false false) (String.String (Ascii.Ascii true false true true false false true false) (String.String (Ascii.Ascii true false false true false false true false) (String.String (Ascii.Ascii false true true true false false true false) (String.String (Ascii.Ascii true true true true false false true false) (String.String (Ascii.Ascii false true false false true false true false) (String.String (Ascii.Ascii false true true true false true false false) (String.String (Ascii.Ascii false false false false true false true false) (String.String (Ascii.Ascii true false false false false false true false) (String.String (Ascii.Ascii false false true false true false true false) (String.String (Ascii.Ascii true true false false false false true false) (String.String (Ascii.Ascii false false false true false false true false) (String.String (Ascii.Ascii false true false false false true false false) String.EmptyString))))))))))))))))))))))))))))))))))))))))) ++ [10%N]) = Some (lit (String.String (Ascii.Ascii true true false false false true true false) (String.String (Ascii.Ascii true false true false true true true false) (String.String (Ascii.Ascii false true false false true true true false) (String.String (Ascii.Ascii false true false false true true true false) (String.String (Ascii.Ascii true false true false false true true false) (String.String (Ascii.Ascii false true true true false true true false) (String.String (Ascii.Ascii false false true false true true true false) (String.String (Ascii.Ascii true true true true true false true false) (String.String (Ascii.Ascii false true true false true true true false) (String.String (Ascii.Ascii true false true false false true true false) (String.String (Ascii.Ascii false true false false true true true false) (String.String (Ascii.Ascii true true false false true true true false) (String.String (Ascii.Ascii true false false true false true true false) (String.String (Ascii.Ascii true true true true false true true false) (String.String (Ascii.Ascii false true true true false true true false) (String.String (Ascii.Ascii false false false false false true false false) (String.String (Ascii.Ascii true false true true true true false false) (String.String (Ascii.Ascii false false false false false true false false) (String.String (Ascii.Ascii false true false false false true false false) (String.String (Ascii.Ascii true false true true false false true false) (String.String (Ascii.Ascii true false false false false false true false) (String.String (Ascii.Ascii false true false true false false true false) (String.String (Ascii.Ascii true true true true false false true false) (String.String (Ascii.Ascii false true false false true false true false) (String.String (Ascii.Ascii false true true true false true false false) (String.String (Ascii.Ascii true false true true false false true false) (String.String (Ascii.Ascii true false false true false false true false) (String.String (Ascii.Ascii false true true true false false true false) (String.String (Ascii.Ascii true true true true false false true false) (String.String (Ascii.Ascii false true false false true false true false) (String.String (Ascii.Ascii false true true true false true false false) (String.String (Ascii.Ascii false false false false true false true false) (String.String (Ascii.Ascii true false false false false false true false) (String.String (Ascii.Ascii false false true false true false true false) (String.String (Ascii.Ascii true true false false false false true false) (String.String (Ascii.Ascii false false false true false false true false) (String.String (Ascii.Ascii false true false false false true false false) String.EmptyString)))))))))))))))))))))))))))))))))))))).
+Proof. exact self_pattern_toml_by_hand. Qed.
+Print Assumptions C19_self_pattern_toml_by_hand.
